@@ -9,14 +9,18 @@ readings are read back with the public `get_parameter`.
 Two correspondences per run:
   (a) the model's scanner `scan` against `VALUE_PATTERN.findall` of the tree under test on
       >= 10^5 adversarial strings (this validates the regex model the theorems rest on);
-  (b) rendered abstract reports (Marlin position / temperature, Grbl status / probe, and free mixes
-      of their tokens) delivered in sequences: acknowledgement, error and every reading compared with
+  (b) rendered abstract reports (Marlin position / temperature, Grbl status in every machine state
+      - Alarm, Hold:n, Door:n, any letter case -, Grbl probe, free mixes of their tokens, reading-less
+      `[MSG:..]` / `echo:` / `//` lines; the words error / alarm / !! appear inside them as plain text)
+      and error lines (those words at the START, any case, also in front of a complete report)
+      delivered in sequences: acknowledgement, error and every reading compared with
       the model after every line, and with an oracle that computes "first value per letter" from the
       abstract report (never from the model).
 """
 from __future__ import annotations
 
 import logging
+import re
 import signal
 from fractions import Fraction
 
@@ -145,14 +149,32 @@ def gen_dec(rng, kind="any"):
     return (neg, ip, fp)
 
 
+# the words the dispatch of `_on_device_message` looks for at the START of a line; anywhere else in a line they are
+# ordinary text (a Grbl report in the Alarm state, a `[MSG:…]` line, a Marlin `echo:` line that talks about errors)
+ERR_PREFIXES = ("error", "alarm", "!!")
+ERRWORDS = ["error", "Error", "ERROR", "alarm", "Alarm", "ALARM", "!!", "aLaRm", "eRRoR", "error:", "Error:", "ALARM:", "alarm:",
+            "errors", "Alarmed", "NoError", "!!!", "(error)", "Alarm!", "alarm2", "ERR", "!"]
 NOISE = ["Count", "/210.0", "/60.0", "@:127", "B@:0", "Idle", "Run", "Jog", "Pn:XYZ", "A:SFM", "W:?", "echo:busy",
-         "//", "T", "X:", ":5", "busy:", "1", "x", "Home", "@:0", "-", ".", "a:b", "T:", "E:x"]
-OTHER_KEYS = ["WCO", "Ov", "Bf", "Ln", "T0", "T1", "Hold", "Door", "mpos", "fs", "Fs", "PRb", "XY", "B1", "00"]
+         "//", "T", "X:", ":5", "busy:", "1", "x", "Home", "@:0", "-", ".", "a:b", "T:", "E:x"] + ERRWORDS
+OTHER_KEYS = ["WCO", "Ov", "Bf", "Ln", "T0", "T1", "Hold", "Door", "mpos", "fs", "Fs", "PRb", "XY", "B1", "00",
+              "Alarm", "ALARM", "error", "Err"]
 LETTERS = "XYZEABCFSTPRUVW"
 
 
 def pad(rng):
     return rng.choice(["", "", "", " ", "\n", "\r\n", "\t ", "  "]), rng.choice(["", "\n", "\n", "\r\n", " ", " \n"])
+
+
+def errword_inside(rng, toks, p, first=1):
+    """With probability `p` put an error word (plain text for the parser) between the tokens, never before `toks[first]`."""
+    if rng.random() < p:
+        toks.insert(rng.randint(first, len(toks)), ("N", rng.choice(ERRWORDS)))
+    return toks
+
+
+def starts_like_error(r):
+    """Python twin of `errPrefix (lower r.body)` in `Report.wf`: such a line is an error line, not a report."""
+    return rep_body(r).lower().startswith(ERR_PREFIXES)
 
 
 def gen_marlin_pos(rng):
@@ -164,6 +186,7 @@ def gen_marlin_pos(rng):
     if rng.random() < 0.85:
         toks.append(("N", "Count"))
         toks += [("L", a, gen_dec(rng, "int")) for a in "XYZ"]
+    errword_inside(rng, toks, 0.12)
     lead, trail = pad(rng)
     return {"family": "marlin-pos", "lead": lead, "ok": rng.random() < 0.25, "open": None, "sep": " ", "close": None, "trail": trail, "toks": toks}
 
@@ -180,8 +203,28 @@ def gen_marlin_temp(rng):
         toks.append(("L", "T", gen_dec(rng)))  # the hot-end again: the first value counts
     if rng.random() < 0.2:
         toks.append(("N", "W:?"))
+    errword_inside(rng, toks, 0.12)
     lead, trail = pad(rng)
     return {"family": "marlin-temp", "lead": lead, "ok": rng.random() < 0.6, "open": None, "sep": " ", "close": None, "trail": trail, "toks": toks}
+
+
+# every machine state of Grbl 1.1 (`Hold` and `Door` carry a sub-state digit), Alarm over-weighted: its name is an error word
+GRBL_STATES = ["Idle", "Run", "Jog", "Home", "Check", "Sleep", "Alarm", "Alarm", "Alarm",
+               "Hold:0", "Hold:1", "Door:0", "Door:1", "Door:2", "Door:3"]
+
+
+def gen_grbl_state(rng):
+    name, _, sub = rng.choice(GRBL_STATES).partition(":")
+    r = rng.random()
+    if r < 0.10:
+        name = name.upper()
+    elif r < 0.20:
+        name = name.lower()
+    elif r < 0.25:
+        name = name.swapcase()
+    if rng.random() < 0.04:
+        sub = sub or str(rng.randint(0, 9))  # `Alarm:3`: not printed by Grbl 1.1, still a field the parser ignores
+    return ("O", name, [(False, sub, None)]) if sub else ("N", name)
 
 
 def gen_grbl_status(rng):
@@ -202,7 +245,8 @@ def gen_grbl_status(rng):
     if rng.random() < 0.15:
         fields.append(("P", "w", [gen_dec(rng) for _ in range(3)], None))  # a second position group: ignored
     rng.shuffle(fields)
-    state = rng.choice([("N", "Idle"), ("N", "Run"), ("N", "Jog"), ("O", "Hold", [(False, "0", None)]), ("O", "Door", [(False, "1", None)])])
+    errword_inside(rng, fields, 0.12, first=0)
+    state = gen_grbl_state(rng)
     lead, trail = pad(rng)
     return {"family": "grbl-status", "lead": lead, "ok": False, "open": "<", "sep": "|", "close": ">", "trail": trail, "toks": [state] + fields}
 
@@ -237,15 +281,70 @@ def gen_mixed(rng):
     if cl is None and toks[-1][0] == "N":
         toks.append(("L", "Y", gen_dec(rng)))
     lead, trail = pad(rng)
-    return {"family": "mixed", "lead": lead, "ok": ok, "open": op, "sep": sep, "close": cl, "trail": trail, "toks": toks}
+    r = {"family": "mixed", "lead": lead, "ok": ok, "open": op, "sep": sep, "close": cl, "trail": trail, "toks": toks}
+    if not ok and starts_like_error(r):  # `error:5 X:1` is an error line, not a report (see gen_error_line)
+        toks.insert(0, ("L", rng.choice("XYZT"), gen_dec(rng)))
+    return r
 
 
-FAMILIES = [gen_marlin_pos, gen_marlin_temp, gen_grbl_status, gen_grbl_probe, gen_mixed, gen_mixed]
+# lines without readings that devices send between reports; the text is one noise token (the pattern finds nothing in it)
+GRBL_MESSAGES = ["MSG:Reset to continue", "MSG:'$H'|'$X' to unlock", "MSG:Caution: Unlocked", "MSG:Enabled", "MSG:Disabled", "MSG:Check Door",
+                 "MSG:Check Limits", "MSG:Pgm End", "MSG:Restoring defaults", "MSG:Sleeping", "MSG:Alarm lock", "MSG:Homing fail alarm",
+                 "MSG:Soft limit error", "MSG:ALARM", "MSG:Error", "MSG:error: reset", "MSG:!! halted", "GC:G0 G54 G17 G21 G90 G94 M5 M9 T0 F0 S0",
+                 "HLP:$$ $# $G $I $N $x=val $Nx=line $J=line $SLP $C $X $H ~ ! ? ctrl-x", "OPT:V,15,128", "echo:alarm", "Alarm", "error"]
+PLAIN_MESSAGES = ["Grbl 1.1h ['$' for help]", "echo:busy: processing", "echo:busy: paused for user", "echo:Unknown command: \"M999\"", "echo:cold extrusion prevented",
+                  "echo:SD card ok", "echo:Error checking disabled", "echo:Error:Printer halted", "echo:error", "echo: Alarm", "echo:; no error here",
+                  "echo:Marlin 2.1.2", "echo:!! thermal runaway", "// action:cancel", "// Klipper state: Ready", "// Klipper state: Shutdown (error)",
+                  "// !! not at the start", "//Alarm cleared", "//error", "start", "wait", "Resend: 7", "rs N7 error", "T:error", "X:alarm Y:!!",
+                  "Unknown command: error", "$X to clear the alarm", "no error", "an alarm", "x!!", "(error)", "?!!", "[error]", "-error", ">alarm<"]
+
+
+def gen_message(rng):
+    """A line of the device that carries no reading (`[MSG:…]`, `echo:…`, `// …`), sometimes followed by readings."""
+    if rng.random() < 0.45:
+        op, cl, text = "[", "]", rng.choice(GRBL_MESSAGES)
+    else:
+        op, cl, text = None, None, rng.choice(PLAIN_MESSAGES)
+    if rng.random() < 0.35:  # an error word somewhere after the first word
+        ws = text.split(" ")
+        ws.insert(rng.randint(1, len(ws)), rng.choice(ERRWORDS))
+        text = " ".join(ws)
+    if rng.random() < 0.25:
+        text = rng.choice([text.upper(), text.lower(), text.swapcase()])
+    toks = [("N", text)]
+    if rng.random() < 0.3:
+        toks += [("L", rng.choice("XYZTBEFS"), gen_dec(rng)) for _ in range(rng.randint(1, 3))]
+    lead, trail = pad(rng)
+    return {"family": "message", "lead": lead, "ok": False, "open": op, "sep": " ", "close": cl, "trail": trail, "toks": toks}
+
+
+FAMILIES = [gen_marlin_pos, gen_marlin_temp, gen_grbl_status, gen_grbl_status, gen_grbl_probe, gen_mixed, gen_mixed, gen_message]
+REPORT_FAMILIES = [gen_marlin_pos, gen_marlin_temp, gen_grbl_status, gen_grbl_status, gen_grbl_probe, gen_mixed]
 
 ERROR_LINES = ["error: X:5 Y:6", "Error:Printer halted. kill() called! X:1", "ALARM:1", "alarm:2 MPos:9,9,9", "!! T:999", "  error:9\n", "ERROR X:0"]
 GARBAGE = ["x:1 X:2", "X:1 x:2 X:3", "X:1.2.3 Y:5", "X:- Y:--1 Z:1-2", "<Idle|MPos:1,,2|FS:5>", "<Idle|FS:1,2,3|MPos:1,x,3>", "MPos:1,2,.,4", "ok", "OK X:1", "okay T:5",
            "", "   ", "wait", "echo:busy: processing", "X:1,2 Y:3", "FS:1,2", " <Idle|FS:7,8>", "ok <Idle|FS:7,8>", "X:1e5", "X:+5", "X: 5", "Xx:5 Y :6",
-           "<Run|WPos:1,2,3,4,5,6,7,x|F:5>", "PRB:1,2:1", "[PRB:1,2,3,oops:1]", "MPos:5 mpos:6 WPOS:7", "X:1\x0b", "\x1cX:3\x1f", "FS:1,x", "<FS:1,x|FS:2,3>", "<FS:x,1|F:9>"]
+           "<Run|WPos:1,2,3,4,5,6,7,x|F:5>", "PRB:1,2:1", "[PRB:1,2,3,oops:1]", "MPos:5 mpos:6 WPOS:7", "X:1\x0b", "\x1cX:3\x1f", "FS:1,x", "<FS:1,x|FS:2,3>", "<FS:x,1|F:9>",
+           "<Alarm|MPos:1,,2|FS:5>", "<ALARM|FS:1,2,3|MPos:1,x,3>", "<Alarm|MPos:1,2,3|FS:4,x>", "echo:Error X:1.2.3 Y:5", "[MSG:alarm x:1 X:2]", "x:1 error X:2",
+           "ok error X:1", "OK ALARM:1 X:2", "okerror: X:3", "<!!|mpos:1,2,3|FS:7,8>", " \x1cAlarm X:1", "Alarm\x0bX:1", "<Alarm|MPos:1,2,3|FS:5,6", "erro r:1 X:1", "alar:1 m:2", "! ! X:5"]
+
+
+ERROR_HEADS = ["error", "Error", "ERROR", "alarm", "Alarm", "ALARM", "!!", "eRRoR", "aLARM", "errors", "Alarmed", "!!!"]
+
+
+def gen_error_line(rng):
+    """A line that STARTS (after blanks) with error / alarm / !! in any case: an error line whatever follows, even a
+    complete report (`Alarm|MPos:1,2,3|FS:5,6>`, `error: <Idle|MPos:…>`); it must change no reading."""
+    if rng.random() < 0.3:
+        return rng.choice(ERROR_LINES)
+    head = rng.choice(ERROR_HEADS)
+    r = rng.random()
+    if r < 0.2:
+        tail = rng.choice(["", ":1", ":9", ": 22", " 3", ":Printer halted. kill() called!", ": Unknown command", ":checksum mismatch, Last Line: 7"])
+    else:
+        tail = rng.choice(["", ":", ": ", " ", "|", ":3 ", ":3|", " ok ", "<", " <", "//"]) + rep_body(rng.choice(REPORT_FAMILIES)(rng))
+    lead, trail = pad(rng)
+    return lead + head + tail + trail
 
 
 def gen_case(rng):
@@ -253,7 +352,7 @@ def gen_case(rng):
     items = []
     for _ in range(rng.choice([1, 1, 2, 2, 3, 4, 6])):
         if rng.random() < 0.12:
-            items.append(("error", rng.choice(ERROR_LINES)))
+            items.append(("error", gen_error_line(rng)))
         elif items and rng.random() < 0.2:
             # the very same line again (auto-reports repeat verbatim), possibly after other reports in between
             items.append(rng.choice([it for it in items]))
@@ -274,10 +373,46 @@ def gen_garbage_case(rng):
             line = line[:k] + rng.choice(["", ":", ",", "-", " ", "X", "x:", "<", "ok"]) + line[k + rng.randint(0, 2):]
             items.append(("raw", line))
         elif r < 0.8:
-            items.append(("error", rng.choice(ERROR_LINES)))
+            items.append(("error", gen_error_line(rng)))
         else:
             items.append(("report", rng.choice(FAMILIES)(rng)))
     return {"via": "printrun", "items": items}
+
+
+ERRWORD_RE = re.compile(r"error|alarm|!!", re.IGNORECASE)
+VALUE_LIKE_RE = re.compile(r"[A-Za-z0-9]:[-0-9.]")
+
+
+def word_case(w):
+    return "bang" if w == "!!" else "lower" if w.islower() else "upper" if w.isupper() else "title" if w.istitle() else "mixed"
+
+
+def report_tags(r):
+    """Distribution keys of a report, computed from its content (not from how it was generated)."""
+    tags = []
+    if r["family"] == "grbl-status":
+        name, _, sub = tok_text(r["toks"][0]).partition(":")
+        tags.append("grbl-state:" + name.capitalize() + (":n" if sub else ""))
+        if name != name.capitalize():
+            tags.append("grbl-state-case:" + word_case(name))
+    m = ERRWORD_RE.search(rep_body(r))
+    if m:  # a well-formed report never starts with one: this is an error word inside a line that must be parsed
+        tags += ["errword-inside-report", "errword-inside:" + r["family"], "errword-case:" + word_case(m.group())]
+        if first_values(r):
+            tags.append("errword-inside-report-with-readings")
+    if not first_values(r):
+        tags.append("report-without-readings")
+    return tags
+
+
+def error_line_tags(line):
+    m = ERRWORD_RE.match(line.strip())
+    tags = ["error-line-case:" + (word_case(m.group()) if m else "?")]
+    if VALUE_LIKE_RE.search(line):
+        tags.append("error-line-with-values")
+    if line.strip()[len(m.group()) if m else 0:].lstrip(":| 0123456789").startswith("<"):
+        tags.append("error-line-then-status-report")
+    return tags
 
 
 def case_letters(case):
@@ -461,9 +596,9 @@ def run_reports(R, cases, label):
         for it in c["items"]:
             if it[0] == "report":
                 mentioned.update(first_values(it[1]))
-                R.count("family:" + it[1]["family"], "ok:" + str(it[1]["ok"]))
+                R.count("family:" + it[1]["family"], "ok:" + str(it[1]["ok"]), *report_tags(it[1]))
             else:
-                R.count("line:" + it[0])
+                R.count("line:" + it[0], *(error_line_tags(it[1]) if it[0] == "error" else []))
         R.case(case_repr(c), nontrivial=len(mentioned) >= 2)
         R.count(label, "via:" + c["via"], f"lines:{len(c['items'])}")
         if impl_recs != model_recs:
